@@ -165,8 +165,57 @@ def replay_mech(behs):
     return problems, nsteps
 
 
+def start_recorded_tests(wd):
+    """the repository's own end-to-end tests under harness/recorder.py (code -> spec on executions this framework did not design)"""
+    import subprocess
+    import sys
+    import copulas
+    src = os.path.dirname(os.path.dirname(os.path.abspath(copulas.__file__)))
+    d = os.path.join(wd, 'rec')
+    os.makedirs(d)
+    os.symlink(os.path.join(src, 'copulas'), os.path.join(d, 'copulas'))
+    for name in ('tests', 'data', 'pyproject.toml'):
+        if os.path.exists(os.path.join('/repo', name)):
+            os.symlink(os.path.join('/repo', name), os.path.join(d, name))
+    trace = os.path.join(wd, 'recorded.json')
+    env = dict(os.environ, COPULAS_VERIF='1', COPULAS_VERIF_TRACE=trace, PYTHONPATH=d + os.pathsep + T.VERIF)
+    proc = subprocess.Popen([sys.executable, '-m', 'pytest', '-q', '-x', '-p', 'no:cacheprovider', '-p', 'harness.recorder',
+                             'tests/end-to-end/univariate', 'tests/end-to-end/bivariate', 'tests/end-to-end/multivariate'],
+                            cwd=d, env=env, stdout=subprocess.DEVNULL, stderr=subprocess.DEVNULL)
+    return proc, trace
+
+
+def finish_recorded_tests(ctx, proc, trace):
+    try:
+        proc.wait(timeout=900)
+    except Exception:
+        proc.kill()
+    if not os.path.exists(trace):
+        ctx.extra['recorded_repo_tests'] = 'not available (pytest run produced no trace)'
+        return
+    with open(trace) as f:
+        log = json.load(f)
+    ctx.extra['recorded_sample_calls_in_repo_tests'] = len(log)
+    ctx.extra['recorded_seeded_sample_calls'] = sum(1 for e in log if e['seeded'])
+    if not log:
+        return
+    r = T.run('RngTrace', 'SPECIFICATION Spec\nINVARIANT TraceChecked\nCHECK_DEADLOCK FALSE\n', workers=1, env={'TRACE_FILE': trace}, timeout=300)
+    ctx.note_tlc('RngTrace', r)
+    v = r.tagged('VERDICT')
+    if not v:
+        raise T.TlcError('RngTrace: no verdict')
+    ctx.traces += 1
+    for line, clauses in v[0][0]:
+        e = log[line - 1]
+        for cl in clauses:
+            ctx.violation('C15|recorded:%s|%s|%s' % (e['cls'], cl, 'raised' if e['err'] else 'returned'),
+                          '%s during the repository test %s (%s.sample %s)' % (cl, e['test'], e['cls'], 'raised ' + e['err'] if e['err'] else 'returned'), e)
+
+
 def run(ctx):
     quick = ctx.tier == 'quick'
+    recwd = T.workdir()
+    recproc, rectrace = start_recorded_tests(recwd)
     ctx.rule = ('TLC enumerates every behaviour of Session (C15 alphabet: Sample, SampleRaises, SetSeed, GlobalSeed, '
                 'GlobalDraw, Fit; 2 objects, all seeded/unseeded and fitted/unfitted set-ups) up to the tier bound, '
                 'plus simulated longer ones; each is executed on real objects of every sampler class; a case is one '
@@ -174,7 +223,8 @@ def run(ctx):
                 'sampling call on a fitted model; distinct by content')
     ctx.assumptions = ['generator states are compared through their full MT19937 state (key, position, gauss cache)',
                        'set-up objects are deep copies of once-fitted templates',
-                       'bundled dataset generators are exercised with sizes 1, 2 and 50']
+                       'bundled dataset generators are exercised with sizes 1, 2 and 50',
+                       'the repository end-to-end tests are run under the out-of-tree recorder; only the global-isolation / stream clauses of Sample are judged on them']
     b0 = B.by_name('GaussianUnivariate')
     # 1. design-level model checking of the RNG discipline
     mc = open(os.path.join(CFG, 'Session.c15.mc.cfg')).read()
@@ -219,6 +269,11 @@ def run(ctx):
             want.append((b.name, {'seedform': form}, pcs))
     SJ.run_session_jobs(ctx, 'C15', want, 'harness.props.C15', ('Sample',),
                         extra_jobs=[('__datasets__', 'int', None)], extra_fn=('harness.props.C15', '_datasets'))
+    try:
+        finish_recorded_tests(ctx, recproc, rectrace)
+    finally:
+        import shutil
+        shutil.rmtree(recwd, ignore_errors=True)
     ctx.exhaustive = False
 
 
